@@ -10,7 +10,7 @@ N == Len(Rec)
 TrSupOf == [a \in Actors |-> IF a \in {"A", "L"} THEN "S" ELSE IF a = "B" THEN "A" ELSE NoA]
 TrMonPairs == Actors \X Actors
 TrMax == [a \in Actors |-> 1000]
-TrEnvOps == [a \in Actors |-> {"stop", "kill", "drain", "abort", "selfkill", "selfstop"}]
+TrEnvOps == [a \in Actors |-> {"stop", "kill", "drain", "abort", "selfkill", "selfstop", "joinpg"}]
 
 VARIABLES l, dev, stray   \* stray: names momentarily held by a probe actor of the harness (obs.clash d=0)
 tvars == <<vars, l, dev, stray>>
